@@ -269,6 +269,61 @@ SuffixIndependent ==
     \A sfx \in { <<0>>, <<255, 255, 255>>, CtlExact(RecMT) } :
       LET d == DecodeMessage(st.in \o sfx, st.opts) IN d.res = st.res /\ d.rem = (st.lim - st.pos) + Len(sfx)
 
+---------------------------------------------------------------------------
+\* Refinement: every step of the Decoder machine is a step of LenMachine (the integer-only
+\* abstraction whose safety is shown inductive for inputs of any length), under this mapping.
+IsFixedOp(o) == o.op \in {"u8", "u16", "fix", "skip", "enum"}
+RECURSIVE FixedFrom(_, _)
+FixedFrom(prog, i) == IF i > Len(prog) THEN 0 ELSE (IF IsFixedOp(prog[i]) THEN prog[i].n ELSE 0) + FixedFrom(prog, i + 1)
+
+DataPhase(s) == s.pc \in {"d_fields", "d_offset", "d_skip", "d_extent", "d_payload"} \/ "osize" \in DOMAIN s.hdr
+KnownP(s) == IsKnownType(s.ptype)
+
+AbsPc(s) ==
+  CASE s.mode = "payload" /\ s.pc = "done" -> "a_hdr"
+    [] s.pc = "flags" -> "flags"
+    [] s.pc \in {"version", "reserved", "dispatch", "c_unused", "c_bits"} -> "post_flags"
+    [] s.pc \in {"c_hdr", "c_len", "c_carve", "a_hdr", "a_len", "a_min", "d_min", "d_fields", "d_skip"} -> s.pc
+    [] s.pc = "a_vendor" -> IF s.cur.vendor # 0 THEN "a_skip" ELSE IF s.cur.hidden THEN "a_bytes" ELSE "a_sub"
+    [] s.pc = "a_hidden" -> IF s.cur.hidden THEN "a_bytes" ELSE "a_sub"
+    [] s.pc = "a_type" -> IF KnownP(s) THEN "a_min" ELSE "a_hdr"
+    [] s.pc = "a_field" -> "a_read"
+    [] s.pc = "d_offset" -> "d_off"
+    [] s.pc = "d_extent" -> "d_ext"
+    [] s.pc = "d_payload" -> "d_pay"
+    [] s.pc \in {"c_first", "c_collect", "g_done", "done"} -> "done"
+
+AbsLen(s) ==
+  IF "osize" \in DOMAIN s.hdr THEN (IF s.hdr.length = << >> THEN 0 ELSE s.hdr.length[1])
+  ELSE IF "length" \in DOMAIN s.hdr THEN s.hdr.length ELSE 0
+AbsNeed(s) ==
+  IF ~KnownP(s) THEN 0
+  ELSE IF s.pc \in {"a_type", "a_min"} THEN FixedFrom(Prog(s.ptype), 1) ELSE FixedFrom(Prog(s.ptype), s.fi)
+AbsReq(s) == IF s.req.kind \in {"read", "skip", "sub"} THEN s.req.n ELSE 0
+AbsReqRem(s) == IF s.req.kind \in {"read", "skip", "sub"} THEN s.req.rem ELSE 0
+
+LM == INSTANCE LenMachine WITH
+        MaxRem <- 1000000, FieldMax <- 65535, LOff <- Off,
+        pc <- AbsPc(st),
+        rem <- st.lim - st.pos,
+        arem <- st.aend - st.apos,
+        prem <- IF DataPhase(st) THEN 0 ELSE st.pend - st.ppos,
+        len <- AbsLen(st),
+        alen <- IF "len" \in DOMAIN st.cur THEN st.cur.len ELSE 0,
+        need <- AbsNeed(st),
+        minl <- IF KnownP(st) THEN MinLen(st.ptype) ELSE 0,
+        hdr <- IF DataPhase(st) THEN DataMinHdr(st.flags) ELSE 4,
+        hasL <- DataPhase(st) /\ FlagL(st.flags),
+        hasO <- DataPhase(st) /\ FlagO(st.flags),
+        osz <- IF "osize" \in DOMAIN st.hdr THEN st.hdr.osize ELSE 0,
+        used <- IF DataPhase(st) THEN st.pos - st.start ELSE Min(st.pos - st.start, 2),
+        req <- AbsReq(st),
+        reqrem <- AbsReqRem(st)
+
+RefinesLen == [][LM!Next]_vars
+\* and the abstract state of every reachable Decoder state satisfies the abstract machine's invariant
+AbsInv == LM!Safe /\ LM!TypeOK
+
 \* one line per finished behaviour, replayed against the implementation
 Export ==
   st.pc = "done" =>
